@@ -340,6 +340,9 @@ CHECKS["C09"] = {
         {"name": "client-inbound", "pkg": "cliworld", "run": "^TestC09Client$",
          "quick": {"shards": 3, "checks": 1500, "timeout_s": 420},
          "thorough": {"shards": 16, "checks": 20000, "timeout_s": 2400}},
+        {"name": "client-responses", "pkg": "cliworld", "run": "^TestC09ClientResponses$",
+         "quick": {"shards": 2, "checks": 400, "timeout_s": 400},
+         "thorough": {"shards": 8, "checks": 8000, "timeout_s": 2000}},
         {"name": "client-stream", "pkg": "cliworld", "run": "^TestC09ClientStream$",
          "quick": {"shards": 2, "checks": 300, "timeout_s": 420},
          "thorough": {"shards": 8, "checks": 4000, "timeout_s": 2400}},
